@@ -122,7 +122,7 @@ def tlc(module, cfg_text=None, cfg_file=None, workers=8, timeout=600, env=None, 
             r.violated = r.violated or 'temporal'
         if line.startswith('Error: Deadlock reached'):
             r.violated = 'deadlock'
-        if 'postcondition' in line.lower() and 'violated' in line.lower() or 'Evaluating the post-condition' in line:
+        if ('postcondition' in line.lower() and ('violated' in line.lower() or 'is false' in line.lower())) or 'Evaluating the post-condition' in line:
             r.violated = r.violated or 'postcondition'
         if 'Model checking completed. No error has been found' in line:
             r.completed = True
@@ -247,6 +247,37 @@ class Run:
                 self.failures.append(r)
         oks = [r for r in body if r.get('ok')]
         return body, summary, oks
+
+    def validate_trace(self, module, cfg_text, trace_path, name, check, timeout=900):
+        """implementation -> specification: TLC must be able to consume the whole recorded trace (the invariant NotConsumed is
+        'violated' by the state in which it has); TraceInvariants are evaluated on every state on the way."""
+        recs = read_ndjson(trace_path)
+        if not recs:
+            return 0
+        r = tlc(module, cfg_text=cfg_text, name=name + '_' + self.pid, workers=1, timeout=timeout, deque=True,
+                env={'VERIF_TRACE': trace_path})
+        runs = sum(1 for x in recs if x.get('ev') == 'init')
+        m = re.search(r'"PROGRESS", (\d+), (\d+)', r.out)
+        entry = {'module': module, 'name': name, 'trace_validation': True, 'events': len(recs), 'runs': runs,
+                 'accepted': r.violated is None, 'wall_s': round(r.wall, 1)}
+        self.mc_runs.append(entry)
+        if r.violated is None:
+            return runs
+        if r.violated != 'postcondition':
+            self.failures.append({'check': check, 'ok': False, 'key': 'trace_invariant', 'case': {'trace': trace_path},
+                                  'detail': {'detail': f'a recorded run drives the specification into a state violating {r.violated}'}})
+            return runs
+        at = int(m.group(1)) if m else 0
+        ev = recs[at - 1] if 0 < at <= len(recs) else None
+        init = None
+        for x in recs[:at]:
+            if x.get('ev') == 'init':
+                init = x
+        first_of_run = max(i for i, x in enumerate(recs[:at]) if x.get('ev') == 'init') if init else 0
+        self.failures.append({'check': check, 'ok': False, 'key': 'trace_rejected',
+                              'case': {'run': init, 'events_of_run_so_far': recs[first_of_run:at], 'first_unmatched_event': ev},
+                              'detail': {'detail': f'the recorded behaviour of the real decryptor is not a behaviour of {module}: event {at} of {len(recs)} cannot be matched'}})
+        return runs
 
     def add_samples(self, items, n=3):
         for it in items[:n]:
